@@ -42,8 +42,20 @@ class Node:
         self.addr = self.o.node_address
         self.role, self.level = role, level
 
+    def restore_master(self):
+        """a MESH_ADDR_RELEASE frame claiming to come from address 0 makes the master release its own address (it becomes an
+        unassigned node; outside the listed clauses, see DESIGN.md 0.5 'observations'): put it back so that the vectors
+        that follow really meet a master"""
+        if self.role == "master" and self.o.node_address != 0:
+            self.o._begin(0)
+            self.s.advance(300_000)
+            self.unmastered = getattr(self, "unmastered", 0) + 1
+
     def feed_seq(self, raws, pipes):
         chip, o, s = self.chip, self.o, self.s
+        self.restore_master()
+        if self.role == "master":
+            o.dhcp_dict = {5: 0o1, 9: 0o21}      # every sequence meets the same table (earlier vectors may have filled a parent)
         if chip.rx or not chip.listening_now():
             chip.rx.clear()
             o.listen = True
@@ -78,6 +90,7 @@ class Node:
 
     def feed(self, raw, pipe):
         chip, o, s = self.chip, self.o, self.s
+        self.restore_master()
         if chip.rx or not chip.listening_now():      # a previous (already reported) failure left the node deaf or clogged
             chip.rx.clear()
             o.listen = True
@@ -147,7 +160,8 @@ def work(args):
         H = lambda frm, to, typ, n=2: struct.pack("<HHHBB", frm, to, rng.randrange(65536), typ, 5) + bytes([5, 0, 1, 2][:n])
         pool = [H(0o2, me, 0), H(0o2, 0o100, 196), H(0o2, 0o100, 198), H(0o2, 0o100, 195), H(0o2, 0o100, 194), H(0o2, me, 196),
                 H(0o2, me, 198), H(0o2, me, 197), H(0o7, me, 0), H(0o7, 0o100, 1), H(0o2, 0o60, 0), H(0xFFFF, me, 196),
-                H(0o7, me, 198), H(0o2, me, 148, 4), H(0o2, me, 150, 4), b"\x01\x02\x03", H(0o2, 0o3 if me != 0o3 else 0o4, 65)]
+                H(0o7, me, 198), H(0o2, me, 148, 4), H(0o2, me, 150, 4), b"\x01\x02\x03", H(0o2, 0o3 if me != 0o3 else 0o4, 65),
+                H(0o12, me, 195), H(0o312, 0o100, 195), H(0o2, 0o6, 0), H(0o2, 0o17, 65)]   # requests relayed by level-2/3 nodes: the master's answer is routed and waits for a NETWORK_ACK while the next frames arrive
         seqs = [(a, b) for a in pool for b in pool]
         seqs += [tuple(rng.choice(pool) for _ in range(3)) for _ in range(60)]
         for sq in seqs:
